@@ -57,6 +57,51 @@ func (w *World) Actions() map[string]func(*rapid.T) {
 		"rotate": func(t *rapid.T) {
 			w.ExternalRotate(w.PickPart("part"), rapid.IntRange(0, 2).Draw(t, "newSK") == 0)
 		},
+		// a compound history that random interleaving reaches too rarely: on a held session whose
+		// partition has already rotated to a newer IK, (optionally after other partitions pushed
+		// keys out of a bounded cache) an OLD-generation record is decrypted and the very next
+		// thing the session does is encrypt: the new record names the newest key, not the old one
+		"oldThenNew": func(t *rapid.T) {
+			type cand struct {
+				s   *Sess
+				rec *Rec
+			}
+			var cands []cand
+			for _, p := range w.Procs {
+				for _, s := range p.Sessions {
+					newest := int64(0)
+					var oldest *Rec
+					for _, r := range w.Recs {
+						if r.Partition != s.Partition {
+							continue
+						}
+						if r.IKCreated > newest {
+							newest = r.IKCreated
+						}
+						if oldest == nil || r.IKCreated < oldest.IKCreated {
+							oldest = r
+						}
+					}
+					if oldest != nil && oldest.IKCreated < newest {
+						cands = append(cands, cand{s, oldest})
+					}
+				}
+			}
+			if len(cands) == 0 {
+				t.Skip("no held session whose partition has records under two IK generations")
+			}
+			c := cands[rapid.IntRange(0, len(cands)-1).Draw(t, "sess")]
+			if rapid.Bool().Draw(t, "pressureFirst") {
+				for _, part := range w.Parts {
+					if part != c.s.Partition {
+						o, fresh := w.SessionFor(c.s.Proc, part, true)
+						w.Encrypt(o, []byte("pressure"), false, fresh)
+					}
+				}
+			}
+			w.Decrypt(c.s, c.rec, false, false)
+			w.Encrypt(c.s, []byte("after an old record"), false, false)
+		},
 		"pressure": func(t *rapid.T) {
 			// touch several partitions on one process to create eviction pressure
 			p := w.PickProc("proc")
